@@ -85,4 +85,31 @@ theorem rawActive_none (active inactive : List (String × (ℕ → β))) (free :
   simp only [hxn, hI, Bool.not_true, Bool.and_false, Bool.false_and] at hg
   exact Bool.noConfusion hg
 
+/-! ### mean molecular weight of the published mixture -/
+
+theorem foldl_add_eq (f : String × (ℕ → ℝ) → ℝ) (tbl : List (String × (ℕ → ℝ))) (a : ℝ) :
+    tbl.foldl (fun acc p => acc + f p) a = a + (tbl.map f).sum := by
+  induction tbl generalizing a with
+  | nil => simp
+  | cons x t ih => simp only [List.foldl_cons, List.map_cons, List.sum_cons, ih]; ring
+
+theorem tableWeight_eq_sum (mass : String → ℝ) (tbl : List (String × (ℕ → ℝ))) (l : ℕ) :
+    tableWeight mass tbl l = (tbl.map (fun p => p.2 l * mass p.1)).sum := by
+  unfold tableWeight
+  have h := foldl_add_eq (fun p => p.2 l * mass p.1) tbl 0
+  simpa using h
+
+/-- a row that is zero in layer `l` adds nothing to the weight of the table in that layer, wherever it stands -/
+theorem tableWeight_zero_row (mass : String → ℝ) (pre post : List (String × (ℕ → ℝ))) (n : String) (r : ℕ → ℝ) (l : ℕ)
+    (h : r l = 0) : tableWeight mass (pre ++ (n, r) :: post) l = tableWeight mass (pre ++ post) l := by
+  simp [tableWeight_eq_sum, h]
+
+/-- the weight is linear in the rows: scaling every row by `c` scales it by `c` -/
+theorem tableWeight_scale (mass : String → ℝ) (tbl : List (String × (ℕ → ℝ))) (c : ℝ) (l : ℕ) :
+    tableWeight mass (tbl.map fun p => (p.1, fun k => p.2 k * c)) l = tableWeight mass tbl l * c := by
+  rw [tableWeight_eq_sum, tableWeight_eq_sum, List.map_map]
+  induction tbl with
+  | nil => simp
+  | cons x t ih => simp only [List.map_cons, List.sum_cons, Function.comp, ih]; ring
+
 end Taurex.MixLookup
